@@ -1,0 +1,114 @@
+//go:build verif
+
+package block
+
+import (
+	"context"
+)
+
+// This file only exists when the "verif" build tag is set. It exports handles on
+// state and steps that already exist so that an external harness can drive the
+// manager one logical step at a time. Nothing here is used by the production build.
+
+// VerifPublishBlock runs one block production step (what the aggregation loop calls on a tick).
+func (m *Manager) VerifPublishBlock(ctx context.Context) error {
+	return m.publishBlock(ctx)
+}
+
+// VerifSetPublishBlock replaces the production function (the seam the package's own tests use).
+func (m *Manager) VerifSetPublishBlock(fn func(ctx context.Context) error) {
+	m.publishBlock = fn
+}
+
+// VerifHeaderInCh exposes the header event channel consumed by SyncLoop.
+func (m *Manager) VerifHeaderInCh() chan NewHeaderEvent { return m.headerInCh }
+
+// VerifDataInCh exposes the data event channel consumed by SyncLoop.
+func (m *Manager) VerifDataInCh() chan NewDataEvent { return m.dataInCh }
+
+func (m *Manager) verifSignalCh(kind string) chan struct{} {
+	switch kind {
+	case "retrieve":
+		return m.retrieveCh
+	case "headerStore":
+		return m.headerStoreCh
+	case "dataStore":
+		return m.dataStoreCh
+	case "daIncluder":
+		return m.daIncluderCh
+	case "txNotify":
+		return m.txNotifyCh
+	}
+	return nil
+}
+
+// VerifSignal performs a non-blocking send on one of the tick channels and reports whether it was queued.
+func (m *Manager) VerifSignal(kind string) bool {
+	ch := m.verifSignalCh(kind)
+	if ch == nil {
+		return false
+	}
+	select {
+	case ch <- struct{}{}:
+		return true
+	default:
+		return false
+	}
+}
+
+// VerifSignalLen returns the number of queued ticks on one of the tick channels (-1: unknown kind).
+func (m *Manager) VerifSignalLen(kind string) int {
+	ch := m.verifSignalCh(kind)
+	if ch == nil {
+		return -1
+	}
+	return len(ch)
+}
+
+// VerifDAHeight returns the DA scan cursor.
+func (m *Manager) VerifDAHeight() uint64 { return m.daHeight.Load() }
+
+// VerifSubmitHeadersOnce runs the body of one HeaderSubmissionLoop iteration.
+func (m *Manager) VerifSubmitHeadersOnce(ctx context.Context) error {
+	if m.pendingHeaders.isEmpty() {
+		return nil
+	}
+	headersToSubmit, err := m.pendingHeaders.getPendingHeaders(ctx)
+	if err != nil {
+		return err
+	}
+	if len(headersToSubmit) == 0 {
+		return nil
+	}
+	return m.submitHeadersToDA(ctx, headersToSubmit)
+}
+
+// VerifSubmitDataOnce runs the body of one DataSubmissionLoop iteration.
+func (m *Manager) VerifSubmitDataOnce(ctx context.Context) error {
+	if m.pendingData.isEmpty() {
+		return nil
+	}
+	signedDataToSubmit, err := m.createSignedDataToSubmit(ctx)
+	if err != nil {
+		return err
+	}
+	if len(signedDataToSubmit) == 0 {
+		return nil
+	}
+	return m.submitDataToDA(ctx, signedDataToSubmit)
+}
+
+// VerifWatermarks returns the in-memory last-submitted heights and the pending counts.
+func (m *Manager) VerifWatermarks() (lastHeader, lastData, pendingHeaders, pendingData uint64) {
+	return m.pendingHeaders.getLastSubmittedHeaderHeight(), m.pendingData.getLastSubmittedDataHeight(),
+		m.pendingHeaders.numPendingHeaders(), m.pendingData.numPendingData()
+}
+
+// VerifBatchDataToBytes exposes the batch-cursor list encoder.
+func VerifBatchDataToBytes(b [][]byte) []byte { return convertBatchDataToBytes(b) }
+
+// VerifBytesToBatchData exposes the batch-cursor list decoder.
+func VerifBytesToBatchData(b []byte) ([][]byte, error) { return bytesToBatchData(b) }
+
+// VerifEventInChLength is the capacity of the header/data event channels.
+func VerifEventInChLength() int { return eventInChLength }
